@@ -196,6 +196,11 @@ def tri(it: M.Interp, premise: Formula, conclusion: Formula) -> tuple[str, "dict
     names_ |= atoms_of(cons)
     if M.valid(premise, conclusion, cons):
         return "ok", None
+    # a test on the element's name in a spelling the model does not know may be the internal test written out a second time
+    int_atom = atom(f"INT[{E}]")
+    for a in sorted(names_):
+        if a.startswith(NAME_RELATIONAL) and M.mentions(a, E) and M.valid(M.subst_atom(premise, a, int_atom), M.subst_atom(conclusion, a, int_atom), cons):
+            return "undecided", {a: True}
     soft = sorted(a for a in names_ if not is_canonical(a) and (a.startswith(NAME_RELATIONAL) or not (M.mentions(a, E) or any(M.mentions(a, f"x{i}") for i in range(6)))))
     hard = sorted(names_ - set(soft))
     for env_h in M.assignments(hard):
@@ -330,6 +335,12 @@ def check_sink(repo: Repo, res: Result, it: M.Interp, s: M.Sink) -> None:
                 res.add("C10.R1", part_key(repo, p), True, f"{what}: kept under `{show(rename_sym(p.guard, p.sym, E))}`; for an internal element the combined retention condition does not depend on the external options", p.where(), kind="decision-table")
             res.add("C10.R1", sink_key + f" [{what}]", True, f"retention of an internal element is `{show(k)}`: constant in FLAG / HAS / EXCL once the element is internal", sink_where, kind="decision-table")
             return
+        # a test on the name in a spelling the model does not know may be the internal test written out a second time: if the
+        # dependence disappears once it is assumed to hold, the verdict hinges on what that test means (F-NAME, R2, judges it)
+        for a in sorted(atoms_of(k)):
+            if a.startswith(NAME_RELATIONAL) and M.mentions(a, E) and depends_on_options(it, k, {**assume, a: True}) is None:
+                res.undecide("C10.R1", sink_key + f" [{what}]", f"the retention of an internal element, `{show(k)}`, is independent of the external options only if `{a}` holds for internal elements: a test on the name that is not the recognised internal test decides here", sink_where)
+                return
         # name the filters without which the dependence disappears
         named = False
         base_ok = scanned if what == "modules" else any_base
@@ -356,7 +367,7 @@ def check_sink(repo: Repo, res: Result, it: M.Interp, s: M.Sink) -> None:
         elif st == "violated":
             res.add(rule, construct, False, bad_text + f" (witness: {fmt_env(w)})", at, kind="decision-table")
         else:
-            hint = f" (option-dependent tests in an unknown spelling: {', '.join(w)})" if w else ""
+            hint = f" (tests in a spelling the model does not know: {', '.join(w)})" if w else ""
             res.undecide(rule, construct, f"cannot decide `{show(premise)}` -> `{show(conclusion)}`: it hinges on facts the model does not know{hint}", at)
 
     verdict("C10.R4", sink_key + " [exclude mode: imports]", conj([k_imp_r, FLAG]), INT, "with externals excluded only imports accepted by the internal test remain", f"with externals excluded an import whose importee is not internal is retained: retention is `{show(k_imp_r)}`", sink_where)
